@@ -24,6 +24,9 @@ DEFSETS = [
     "struct g1 { uint8 a; };\nstruct useg { g1 arr[2]; g1 *p; g1 one; };",
     "enum Color { RED, GREEN };\ntypedef Color Colour;\ntypedef Colour Kleur;\nflag Perm { R, W };\ntypedef Perm Mode;",
     "flag Acc : uint16 { NONE = 0, R = 1, W = 2, RW = R | W, X = 4, ALL = 0xffff };\nenum Dup : uint8 { P = 1, Q = 1, Z = 0 };\nstruct m { Acc a; Dup d; };",
+    "struct deep { union { struct { uint8 a; uint8 b; }; uint16 c; }; uint8 d; struct { struct { uint8 e; }; uint8 f; }; };",
+    "enum { OK = 0, SUCCESS = 0, FAILURE };\nflag { FA = 1, FB = 1, FC };\nstruct usesok { uint8 v[FAILURE + 1]; };",
+    "typedef struct { uint8 a; uint16 b; } TA, TB;\ntypedef union { uint8 k; uint16 l; } ua, ub, UC;\nstruct usesab { TA x; TB y; UC z; };",
     "struct tagged { struct Entry { uint8 a; uint8 b; } entries[2]; struct E2 { uint8 c; } *next; struct E3 { uint16 d; } one; union U4 { uint8 e; uint16 f; } u; };",
 ]
 
@@ -104,7 +107,7 @@ def run(tier, seed):
                     problems.append(f"{name}: members listed {listed}, defined {list(t.__members__)}")
             if isinstance(t, type) and issubclass(t, Structure) and isinstance(node, ast.ClassDef) and t.__name__ == name:
                 hints = {n.target.id: ast.unparse(n.annotation) for n in node.body if isinstance(n, ast.AnnAssign) and isinstance(n.target, ast.Name)}
-                for fname, f in t.fields.items():
+                for fname, f in folded_fields(t).items():
                     want = expected_hint(f.type)
                     got = hints.get(fname)
                     if got is None:
@@ -138,3 +141,17 @@ def expected_hint(t):
         return f"Array[{inner}" if inner else "Array["
     n = t.__name__
     return n if n.isidentifier() else None
+
+
+def folded_fields(t, depth=0):
+    """name -> Field of every member reachable as an attribute: named members and, recursively, the members of unnamed
+    (anonymous) struct/union members - computed from __fields__, not from the library's own folded map."""
+    from dissect.cstruct.types import Structure
+
+    out = {}
+    for f in t.__fields__:
+        if f.name is None and isinstance(f.type, type) and issubclass(f.type, Structure) and depth < 6:
+            out.update(folded_fields(f.type, depth + 1))
+        else:
+            out[f._name] = f
+    return out
